@@ -80,6 +80,11 @@ func (p *poller) addConn(c *Conn) error {
 		_ = c.closeWithError(err)
 		return err
 	}
+	if p.g.isStopping() {
+		// the engine is stopping: do not open new connections.
+		_ = c.closeWithError(net.ErrClosed)
+		return net.ErrClosed
+	}
 	c.p = p
 	if c.typ != ConnTypeUDPServer {
 		p.g.onOpen(c)
@@ -109,8 +114,14 @@ func (p *poller) addConn(c *Conn) error {
 	c.mux.Unlock()
 	if err != nil {
 		_ = c.closeWithError(err)
+		return err
 	}
-	return err
+	if p.g.isStopping() {
+		// Stop began while this connection was being added and may have missed
+		// it when it closed the connections: close it here.
+		_ = c.Close()
+	}
+	return nil
 }
 
 // add the connection to poller and handle its io events.
@@ -127,6 +138,10 @@ func (p *poller) addDialer(c *Conn) error {
 		return err
 	}
 	c.p = p
+	// Insert and register under the connection mutex: as soon as the connection
+	// is in the table Stop may close it, and that must not interleave with the
+	// registration of its descriptor.
+	c.mux.Lock()
 	p.g.connsUnix[fd] = c
 	c.isWAdded = true
 	err := p.addReadWrite(fd)
@@ -134,13 +149,14 @@ func (p *poller) addDialer(c *Conn) error {
 		// The caller (DialAsync) returns this error and releases the
 		// connection counter itself: no dial callback and no close notification.
 		p.g.connsUnix[fd] = nil
-		c.mux.Lock()
 		c.closed = true
 		c.onConnected = nil
 		c.mux.Unlock()
 		_ = syscall.Close(fd)
+		return err
 	}
-	return err
+	c.mux.Unlock()
+	return nil
 }
 
 //go:norace
@@ -224,6 +240,7 @@ func (p *poller) start() {
 	defer logging.Debug("NBIO[%v][%v_%v] stopped", p.g.Name, p.pollType, p.index)
 
 	if p.isListener {
+		defer p.g.wgAccept.Done()
 		p.acceptorLoop()
 	} else {
 		defer func() {
